@@ -4,4 +4,4 @@ CONSTANTS
   MaxOps = 0
   Kinds = {"d"}
   HistOn = FALSE
-INVARIANTS RootsBinary WitnessesVerify AddWitnessVerifies TamperRejected RefsStored RecoverSame
+INVARIANTS OutOfRange RootsBinary WitnessesVerify AddWitnessVerifies TamperRejected RefsStored RecoverSame
